@@ -10,19 +10,23 @@ def run_history(sc):
     from usim.py.resources.store import Store, PriorityStore, FilterStore, PriorityItem
     from usim.py.resources.resource import Resource, PriorityResource, PreemptiveResource, Preempted
     kind, cap, init, hist = sc['kind'], sc['cap'], sc['init'], sc['hist']
+    pair = sc.get('pair', 0)
+
+    def time_of(i):
+        return i - 2 if pair > 0 and i > pair else i - 1
     env = Environment()
     res = {'Container': lambda: Container(env, capacity=cap, init=init), 'Store': lambda: Store(env, capacity=cap),
            'PriorityStore': lambda: PriorityStore(env, capacity=cap), 'FilterStore': lambda: FilterStore(env, capacity=cap),
            'Resource': lambda: Resource(env, capacity=cap), 'PriorityResource': lambda: PriorityResource(env, capacity=cap),
            'PreemptiveResource': lambda: PreemptiveResource(env, capacity=cap)}[kind]()
-    reqs, procs, evicted, trace = {}, {}, [], [{'e': 'sc', 'kind': kind, 'cap': cap, 'init': init, 'hist': hist}]
+    reqs, procs, evicted, trace = {}, {}, [], [{'e': 'sc', 'kind': kind, 'cap': cap, 'init': init, 'hist': hist, 'pair': pair}]
     filters = {0: lambda item: True, 1: lambda item: item % 2 == 1, 2: lambda item: item % 2 == 0, 3: lambda item: False}
 
     def item_id(x):
         return x.item if isinstance(x, PriorityItem) else x
 
     def op_proc(i, o):
-        yield env.timeout(i - 1)
+        yield env.timeout(time_of(i))
         op = o['op']
         try:
             if op == 'put':
@@ -70,8 +74,13 @@ def run_history(sc):
             yield env.event()
 
     def observer():
-        for k in range(1, len(hist) + 1):
-            yield env.timeout(0.5 if k == 1 else 1)
+        # one snapshot at the end of every time step, labelled with the last operation issued in it
+        last = {}
+        for i in range(1, len(hist) + 1):
+            last[time_of(i)] = i
+        for step, t in enumerate(sorted(last)):
+            yield env.timeout(0.5 if step == 0 else 1)
+            k = last[t]
             granted = sorted(i for i, r in reqs.items() if r.triggered and hist[i - 1]['op'] in ('put', 'get', 'request', 'release', 'use'))
             got = []
             if kind in ('Store', 'PriorityStore', 'FilterStore'):
